@@ -1828,3 +1828,136 @@ func sridReaderEval(p *core.Program, r *core.Report, rule string) {
 		}
 	}
 }
+
+// parsedNumberRule (C06): a number becomes an ordinate only if strconv.ParseFloat reported no error at all.
+func parsedNumberRule(p *core.Program, r *core.Report, rule string) {
+	r.Rule(rule, "in package wkt every use of the float64 result of strconv.ParseFloat (the store into the token value, a return, an argument) is unreachable once the CFG edges on which its error is nil are deleted: a literal that overflows float64 (ParseFloat returns +-Inf together with ErrRange) or does not parse is never handed to the parser as an ordinate - an infinite ordinate is written back as +Inf, which the lexer itself cannot read, so an accepted geometry would not survive encode/parse", 1)
+	n := 0
+	for _, fn := range pkgFuncs(p, wktRel) {
+		for _, c := range eng.Calls(fn) {
+			call, ok := c.(*ssa.Call)
+			if !ok || !eng.IsCallTo(c, "strconv", "ParseFloat") {
+				continue
+			}
+			var val, errv ssa.Value
+			for _, rf := range eng.Referrers(call) {
+				if ex, isEx := rf.(*ssa.Extract); isEx {
+					if ex.Index == 0 {
+						val = ex
+					} else {
+						errv = ex
+					}
+				}
+			}
+			n++
+			key := fmt.Sprintf("%s/ParseFloat#%d", short(fn), n)
+			if val == nil {
+				r.OK(rule, key, p.Pos(call.Pos()), false, "the value is not used")
+				continue
+			}
+			if errv == nil {
+				r.Bad(rule, key, p.Pos(call.Pos()), "the error of ParseFloat is discarded while its value is used")
+				continue
+			}
+			edges := eqPassEdges(fn, func(v ssa.Value) bool { return v == errv }, eng.IsNilConst)
+			bad := ""
+			for _, rf := range eng.Referrers(val) {
+				if _, isDbg := rf.(*ssa.DebugRef); isDbg {
+					continue
+				}
+				if len(edges) == 0 || eng.Reachable(fn.Blocks[0], edges)[rf.Block()] {
+					bad = "the parsed value is used at " + p.Pos(rf.Pos()) + " on a path where ParseFloat's error is not nil (a range error yields +-Inf, a syntax error 0)"
+				}
+			}
+			r.Check(bad == "", rule, key, p.Pos(call.Pos()), true, "the value is used only behind err == nil", bad)
+		}
+	}
+}
+
+// cornerNotCoordinateRule (C08): the corners of a box are not coordinates. min starts at +Inf and max at -Inf so that
+// an empty dimension is recognisable; a fold kernel (a method of Bounds that takes both math.Min and math.Max of the
+// values it is handed) applied to another box's min or max array folds those markers into the opposite side and the
+// dimension becomes (-Inf, +Inf).
+func cornerNotCoordinateRule(p *core.Program, r *core.Report, rule string) {
+	r.Rule(rule, "no call in package geom hands a Bounds' min or max array (a load of those fields, also through slicing or a phi) to a fold kernel - a method of Bounds whose body applies both math.Min and math.Max to the elements of that parameter: coordinates come from geometries' flat arrays; boxes are merged member by member or min-with-min / max-with-max", 1)
+	isCorner := func(v ssa.Value) bool {
+		seen := map[ssa.Value]bool{}
+		var walk func(v ssa.Value, d int) bool
+		walk = func(v ssa.Value, d int) bool {
+			if v == nil || seen[v] || d > 6 {
+				return false
+			}
+			seen[v] = true
+			switch x := v.(type) {
+			case *ssa.UnOp:
+				if x.Op == token.MUL {
+					if fa, ok := x.X.(*ssa.FieldAddr); ok {
+						pt, _ := fa.X.Type().Underlying().(*types.Pointer)
+						if pt != nil && namedTypeName(pt.Elem()) == "Bounds" {
+							if st, ok := pt.Elem().Underlying().(*types.Struct); ok {
+								n := st.Field(fa.Field).Name()
+								return n == "min" || n == "max"
+							}
+						}
+					}
+				}
+			case *ssa.Slice:
+				return walk(x.X, d+1)
+			case *ssa.ChangeType:
+				return walk(x.X, d+1)
+			case *ssa.Phi:
+				for _, e := range x.Edges {
+					if walk(e, d+1) {
+						return true
+					}
+				}
+			}
+			return false
+		}
+		return walk(v, 0)
+	}
+	kernels := map[*ssa.Function]bool{}
+	for _, fn := range pkgFuncs(p, "") {
+		if fn.Signature.Recv() == nil || !strings.Contains(fn.Signature.Recv().Type().String(), "Bounds") {
+			continue
+		}
+		hasMin, hasMax := false, false
+		for _, c := range eng.Calls(fn) {
+			if eng.IsCallTo(c, "math", "Min") {
+				hasMin = true
+			}
+			if eng.IsCallTo(c, "math", "Max") {
+				hasMax = true
+			}
+		}
+		if hasMin && hasMax {
+			kernels[fn] = true
+		}
+	}
+	if len(kernels) == 0 {
+		r.Lost(rule, "geom.(*Bounds)/fold-kernels", "no method of Bounds folds values with math.Min and math.Max any more")
+		return
+	}
+	bad := ""
+	ncalls := 0
+	for _, fn := range pkgFuncs(p, "") {
+		for _, c := range eng.Calls(fn) {
+			cal := eng.StaticCallee(c)
+			if !kernels[cal] {
+				continue
+			}
+			ncalls++
+			for i, a := range c.Common().Args {
+				if i == 0 {
+					continue // the receiver is the box being extended
+				}
+				if isFloatSlice(a.Type()) || isCoordType(a.Type()) {
+					if isCorner(a) {
+						bad = fmt.Sprintf("%s hands a box's min/max array to the fold kernel %s at %s: the +Inf/-Inf markers of an empty dimension are folded in as coordinates and the dimension becomes (-Inf, +Inf)", short(fn), short(cal), p.Pos(c.Pos()))
+					}
+				}
+			}
+		}
+	}
+	r.Check(bad == "" && ncalls >= 1, rule, "geom.(*Bounds)/fold-kernel-arguments", "bounds.go", true, fmt.Sprintf("%d kernel(s), %d call(s), none is handed a box corner", len(kernels), ncalls), bad)
+}
